@@ -907,9 +907,30 @@ func c05LongFallback(c *Ctx) {
 		freeze(baseTime.Add(time.Duration(r.Int64N(1e9))))
 		defer unfreeze()
 		f := newFreeBreaker("NetworkErrorRatio() > 0.5", fb, time.Second, pick(r, []time.Duration{0, time.Second}))
+		wantFallback := http.StatusServiceUnavailable
+		if i%3 == 0 {
+			// the library's own ResponseFallback, configured with a status and no body
+			wantFallback = pick(r, []int{http.StatusTooManyRequests, http.StatusBadGateway, 299})
+			rf, err := cbreaker.NewResponseFallback(cbreaker.Response{StatusCode: wantFallback})
+			if err != nil {
+				panic(err)
+			}
+			cb, err := cbreaker.New(http.HandlerFunc(func(w http.ResponseWriter, req *http.Request) {
+				f.handled.Add(1)
+				w.WriteHeader(int(f.status.Load()))
+			}), "NetworkErrorRatio() > 0.5", cbreaker.FallbackDuration(fb), cbreaker.RecoveryDuration(time.Second), cbreaker.CheckPeriod(0), cbreaker.Fallback(rf))
+			if err != nil {
+				panic(err)
+			}
+			f.cb = cb
+			c.Count("longfallback_with_library_response_fallback", 1)
+		}
+		lastCode := 0
 		serve := func() bool { // true: reached the handler
 			h0 := f.handled.Load()
-			f.cb.ServeHTTP(httptest.NewRecorder(), httptest.NewRequest("GET", "http://x.test/", nil))
+			rec := httptest.NewRecorder()
+			f.cb.ServeHTTP(rec, httptest.NewRequest("GET", "http://x.test/", nil))
+			lastCode = rec.Code
 			return f.handled.Load() != h0
 		}
 		serve() // 502: trips at the first completion
@@ -935,6 +956,11 @@ func c05LongFallback(c *Ctx) {
 			if serve() {
 				c.Eval()
 				c.Violation("shield", sfmt("fallback duration %v: a request arriving %v after the trip was passed to the protected handler", fb, elapsed), nil)
+				return
+			}
+			if lastCode != wantFallback {
+				c.Eval()
+				c.Violation("shield/answer", sfmt("fallback duration %v: a request arriving %v after the trip was not passed on, but it was answered %d; the configured fallback answers %d", fb, elapsed, lastCode, wantFallback), nil)
 				return
 			}
 			if s, _, _ := d.observe(); s != "tripped" {
